@@ -245,6 +245,11 @@ func genC10(seed uint64, run int, tier string) Scenario {
 		// sent after the last credential, in order
 		sc.Ops = []OpSpec{{Kind: "idle", IdleUS: sc.ReadDelayUS*30 + int64(sc.Net.LatMax/time.Microsecond)*10}, {Kind: "readall"}, {Kind: "close"}}
 	}
+	if r.IntN(2) == 0 {
+		// sched-hold fault: the caller is descheduled between the end of the login and the moment
+		// Open puts the login bytes back, so that the read loop queues whatever arrives meanwhile
+		sc.Holds = []HoldSpec{{Base: "user", Point: "chan.open.putback", DurNS: sc.ReadDelayUS * 1000 * int64(pick(r, 1, 2, 5)), Pct: 100}}
+	}
 	sc.Class = sc.Auth + "/" + plan.End
 	if plan.WantOpen == "auth" {
 		sc.Class = sc.Auth + "/too-many-prompts"
@@ -274,6 +279,7 @@ func expandC10(base Scenario, res *Result, tier string) []Scenario {
 		v := *b
 		v.Ops = append([]OpSpec(nil), b.Ops...)
 		v.F.StallAt = k
+		v.Holds = nil
 		v.Class = b.Auth + "/stall"
 		v.SchedSeed = r.Uint64()
 		out = append(out, &v)
